@@ -2,7 +2,9 @@
 from __future__ import annotations
 
 import itertools
+import os
 import random
+import re
 
 from . import runbase as RB
 from ..gen.prog import OUTCOMES
@@ -29,7 +31,7 @@ REQUIRED = {"verdict.matches_model": {"quick": 1500, "thorough": 100000}, "verdi
             "exit_code.matches_model": {"quick": 12, "thorough": 300}}
 REQUIRED_SEEN = {"only_cause": ["failed_scenario", "aborted", "aborted_without_failed_scenario", "hook_failure", "cleanup_failure",
                                 "undefined_dry_run"],
-                 "verdict": ["failed", "success"]}
+                 "verdict": ["failed", "success"], "file_filter": ["include+exclude:file_matching_both"]}
 NSHARDS = {"quick": 16, "thorough": 16}
 NONTRIVIAL = "see RULE"
 
@@ -180,6 +182,41 @@ def build_exhaustive(nsc, nst, bg, combo, variant):
     return {"program": {"features": [feat], "outcomes": outcomes}, "args": args, "cfg": cfg}
 
 
+FILE_PATTERNS = ["f0", "f1", "f2", "f[01]", "f[12]", "f[02]", r"f\d\.feature$", r"\.feature"]
+
+
+def pick_file_filter(rng, case):
+    """--include / --exclude (command line or configuration file): exclude is applied after include."""
+    files = [f["file"] for f in case["program"]["features"]]
+    for _ in range(20):
+        inc = rng.choice(FILE_PATTERNS + [None])
+        exc = rng.choice(FILE_PATTERNS[:6] + [None])
+        if inc is None and exc is None:
+            continue
+        keep = [fl for fl in files if (inc is None or re.search(inc, "features/" + fl)) and
+                not (exc is not None and re.search(exc, "features/" + fl))]
+        if not keep:
+            continue
+        args, ini = [], []
+        for opt, short, key, pat in (("--include", "-i", "include_re", inc), ("--exclude", "-e", "exclude_re", exc)):
+            if pat is None:
+                continue
+            how = rng.choice(["long", "short", "file"])
+            if how == "file":
+                ini.append("%s = %s" % (key, pat))
+            elif how == "long":
+                args.append("%s=%s" % (opt, pat))
+            else:
+                args.extend([short, pat])
+        shape = "%s%s" % ("include" if inc else "", "+exclude" if (inc and exc) else ("exclude" if exc else ""))
+        both = [fl for fl in files if inc and exc and re.search(inc, "features/" + fl) and re.search(exc, "features/" + fl)]
+        if both:
+            shape += ":file_matching_both"
+        return ({"include": inc, "exclude": exc, "keep": keep, "shape": shape}, args,
+                ("[behave]\n" + "\n".join(ini) + "\n") if ini else None)
+    return None, [], None
+
+
 def run(spec, mon):
     from ..lab.inproc import RunLab
     from ..lab.subproc import Project
@@ -220,20 +257,31 @@ def run(spec, mon):
             run_fault_free(lab, mon, case)
             mon.count("exhaustive_cases")
     # ---- subprocess sample: the process exit code --------------------------------------------
-    n_sub = 2 if tier == "quick" else 30
+    n_sub = 3 if tier == "quick" else 30
     for i in range(n_sub):
-        case = RB.gen_case(rng, gen={"max_features": 2})
-        pred = runmodel.predict(case["program"], case["cfg"])
+        case = RB.gen_case(rng, gen={"max_features": 3 if i % 3 == 2 else 2})
         fault = None
         plan = {}
         if i % 3 == 1 and not case["cfg"]["dry_run"]:
             plan["hook_fault"] = {"k": rng.randrange(1, 6), "exc": "Exception"}
+        file_filter, extra_args, ini = None, [], None
+        if i % 3 == 2:
+            file_filter, extra_args, ini = pick_file_filter(rng, case)
+        run_program = case["program"]
+        if file_filter is not None:
+            # "the selected part of the run": feature files taken out by --include / --exclude are not part of it
+            run_program = dict(case["program"], features=[f for f in case["program"]["features"] if f["file"] in file_filter["keep"]])
+            mon.seen("file_filter", file_filter["shape"])
+        pred = runmodel.predict(run_program, case["cfg"])
         proj = Project(case["program"], plan)
         try:
-            res = proj.run(case["args"] + ["-f", "plain", "--no-color"] if False else case["args"] + ["-f", "plain"])
+            if ini:
+                with open(os.path.join(proj.root, "behave.ini"), "w") as fh:
+                    fh.write(ini)
+            res = proj.run(case["args"] + extra_args + ["-f", "plain"])
         finally:
             proj.close()
-        c2 = dict(case, hook_fault=plan.get("hook_fault"))
+        c2 = dict(case, hook_fault=plan.get("hook_fault"), file_filter=file_filter)
         mon.case(("sub", RB.strip_case(c2)), nontrivial(case, pred, bool(plan)))
         if res.get("timeout"):
             mon.note("subprocess watchdog fired (inconclusive case)")
